@@ -148,8 +148,19 @@ def nrefs_of(case):
     return max([e.get("ref") or 0 for op in case["ops"] if op["op"] == "emit" for e in op.get("md", [])] + [0])
 
 
+def model_nodes(nodes):
+    """node list as the Lean driver knows it: a plain pass-through Stream is `map id`; harness-only fields are dropped"""
+    out = []
+    for nd in nodes:
+        nd = {k: v for k, v in nd.items() if k not in ("call_form", "maxsize_default", "emit_on_form")}
+        if nd["kind"] == "plain":
+            nd = {"kind": "map", "f": ["id"], "ups": nd["ups"]}
+        out.append(nd)
+    return out
+
+
 def model_lines(case):
-    lines = [{"op": "reset", "nodes": case["nodes"]}]
+    lines = [{"op": "reset", "nodes": model_nodes(case["nodes"])}]
     refs = list(range(1, nrefs_of(case) + 1))
     for op in case["ops"]:
         lines.append(op)
@@ -504,7 +515,7 @@ def flush_recoverable(nodes, dn, c):
     return True
 
 
-LINEAR_KINDS = ("map", "starmap", "filter", "pluck", "unique", "accumulate", "slice", "flatten", "zip", "partition",
+LINEAR_KINDS = ("plain", "map", "starmap", "filter", "pluck", "unique", "accumulate", "slice", "flatten", "zip", "partition",
                 "partition_unique", "union", "source", "zip_latest")
 
 
